@@ -298,7 +298,24 @@ fn permutation_check(e: &mut Eng, sc: &Scenario, r: &mut Rng, canonical: bool) {
             (RealVerdict::Panic(_), RealVerdict::Panic(_)) | (RealVerdict::Other(_), RealVerdict::Other(_)) => {}
             (a, b) => diffs.push(format!("verdict {} vs {}", verdict_name(a), verdict_name(b))),
         }
-        let conflict = info0.d2_conflict || info2.d2_conflict || has_conflict(sc);
+        // the D2 class, looked for in the declared mutations, in the reference's overlay and in what the
+        // checker itself returned (declared + computed) for either order
+        let returned_conflict = |v: &RealVerdict, s: &Scenario| match v {
+            RealVerdict::Ok { mutations, .. } => {
+                let mut s2 = s.clone();
+                for (sol, m) in s2.solutions.iter_mut().zip(mutations) {
+                    sol.state_mutations = m.clone();
+                }
+                has_conflict(&s2)
+            }
+            _ => false,
+        };
+        let conflict = info0.d2_conflict || info2.d2_conflict || has_conflict(sc) || returned_conflict(&real0, sc) || returned_conflict(&real2, &sc2);
+        if matches!(rv0, RefVerdict::Unspec(_)) || matches!(_rv2, RefVerdict::Unspec(_)) {
+            // e.g. a data output that is not a documented mutation encoding: not judged
+            e.rep.count("permutations_not_judged_unspecified");
+            continue;
+        }
         if !diffs.is_empty() {
             let mut case = case_json(sc, json!({"permutation": perm, "differences": diffs}));
             if conflict {
